@@ -213,7 +213,7 @@ func (g *G) U16() uint16 {
 	return v
 }
 
-var magic32 = []uint32{1, 60, 255, 256, 1000, 3600, 65535, 65536, 86400, 1 << 24, 1<<24 - 1, 268435455, 268435456, 1<<31 - 1, 1 << 31, 0x55555555, 0xAAAAAAAA, 1<<32 - 2, 1<<32 - 1}
+var magic32 = []uint32{1, 60, 127, 128, 255, 256, 1000, 3600, 16383, 16384, 65535, 65536, 86400, 2097151, 2097152, 1 << 24, 1<<24 - 1, 268435455, 268435456, 1<<31 - 1, 1 << 31, 0x55555555, 0xAAAAAAAA, 1<<32 - 2, 1<<32 - 1}
 
 func (g *G) U32() uint32 {
 	t := g.T
@@ -223,6 +223,12 @@ func (g *G) U32() uint32 {
 		v = uint32(1 + t.Int(10))
 	case 1:
 		v = magic32[t.Int(len(magic32))]
+		// ... and their neighbourhood (a limit plus the bytes of a header, minus one, ...)
+		if d := []int64{0, 0, 0, 1, -1, 2, 3, 4, 5, 6, -2, -5}[t.Int(12)]; d != 0 {
+			if w := int64(v) + d; w > 0 && w < 1<<32 {
+				v = uint32(w)
+			}
+		}
 	case 3:
 		if len(g.nums) > 0 {
 			if x := g.nums[t.Int(len(g.nums))]; x != 0 {
